@@ -366,6 +366,8 @@ struct Domains {
     red2_opt: Vec<Letter>,
     red2_meta: Vec<Letter>,
     file: Vec<Letter>,
+    /// `-F`: do not simplify the factor set (must change nothing that the property speaks of)
+    nosimp: Vec<Letter>,
 }
 
 fn domains() -> Domains {
@@ -389,6 +391,7 @@ fn domains() -> Domains {
         red2_opt: vec![opt("", "red2_opt", "absent", &[]), opt("", "red2_opt", "good:0.25 0.75 0.2", &["--red2", "0.25", "0.75", "0.2"]), opt("", "red2_opt", "good:0.0 1.3 0.3", &["--red2", "0.0", "1.3", "0.3"]), opt("", "red2_opt", "bad:1 b 1", &["--red2", "1", "b", "1"]), opt("", "red2_opt", "bad:0.5 0.5 NaN", &["--red2", "0.5", "0.5", "NaN"])],
         red2_meta: vec![meta("red2_meta", "absent", "", None), meta("red2_meta", "good:0.4, 0.6, 0.15", "CTE_RED2", Some("0.4, 0.6, 0.15")), meta("red2_meta", "good:0.25, 0.75, 0.2", "CTE_RED2", Some("0.25, 0.75, 0.2")), meta("red2_meta", "bad:nada", "CTE_RED2", Some("nada")), meta("red2_meta", "bad:NaN, 1, 1", "CTE_RED2", Some("NaN, 1, 1"))],
         file: vec![opt("", "file", "absent", &[]), opt("", "file", "good:f.csv", &["-f", "@f.csv"])],
+        nosimp: vec![opt("", "nosimp", "absent", &[]), opt("", "nosimp", "good:on", &["-F"])],
     }
 }
 
@@ -414,16 +417,17 @@ pub fn run(ctx: &Ctx) -> i32 {
         ("area", vec![d.area_opt.clone(), d.area_meta.clone(), ctx_loc.clone()]),
         ("k_exp", vec![d.k_opt.clone(), d.k_meta.clone(), ctx_loc.clone()]),
         ("location x file", vec![d.loc_opt.clone(), d.loc_meta.clone(), d.file.clone()]),
-        ("RED1", vec![d.red1_opt.clone(), d.red1_meta.clone(), ctx_loc.clone()]),
-        ("RED2", vec![d.red2_opt.clone(), d.red2_meta.clone(), ctx_loc.clone()]),
-        ("RED1 metadata x file", vec![d.red1_meta.clone(), d.red2_meta.clone(), one(&d.file, 1)]),
+        ("RED1", vec![d.red1_opt.clone(), d.red1_meta.clone(), ctx_loc.clone(), d.nosimp.clone()]),
+        ("RED2", vec![d.red2_opt.clone(), d.red2_meta.clone(), ctx_loc.clone(), d.nosimp.clone()]),
+        ("RED1 metadata x file", vec![d.red1_meta.clone(), d.red2_meta.clone(), one(&d.file, 1), d.nosimp.clone()]),
+        ("area x k_exp without simplification of the factors", vec![first2(&d.area_opt), first2(&d.area_meta), first2(&d.k_opt), first2(&d.k_meta), ctx_loc.clone(), one(&d.nosimp, 1)]),
     ];
     for (n, slots) in m1 {
         explore(ctx, &format!("full domain of {n} (option x metadata), others absent"), Layered { slots, bases: base.clone() }, C19, shared.clone());
     }
     // M2: the full product {absent, valid} for option and metadata of all five parameters x factors file
-    let m2 = vec![first2(&d.area_opt), first2(&d.area_meta), first2(&d.k_opt), first2(&d.k_meta), first2(&d.loc_opt), first2(&d.loc_meta), first2(&d.red1_opt), first2(&d.red1_meta), first2(&d.red2_opt), first2(&d.red2_meta), d.file.clone()];
-    explore(ctx, "product {absent, valid}^10 x {no file, file}", Layered { slots: m2, bases: base.clone() }, C19, shared.clone());
+    let m2 = vec![first2(&d.area_opt), first2(&d.area_meta), first2(&d.k_opt), first2(&d.k_meta), first2(&d.loc_opt), first2(&d.loc_meta), first2(&d.red1_opt), first2(&d.red1_meta), first2(&d.red2_opt), first2(&d.red2_meta), d.file.clone(), d.nosimp.clone()];
+    explore(ctx, "product {absent, valid}^10 x {no file, file} x {simplified factors, -F}", Layered { slots: m2, bases: base.clone() }, C19, shared.clone());
     {
         // M3: all pairs of parameters over their full domains
         let all: Vec<(&str, Vec<Letter>, Vec<Letter>)> = vec![("area", d.area_opt.clone(), d.area_meta.clone()), ("k", d.k_opt.clone(), d.k_meta.clone()), ("loc", d.loc_opt.clone(), d.loc_meta.clone()), ("red1", d.red1_opt.clone(), d.red1_meta.clone()), ("red2", d.red2_opt.clone(), d.red2_meta.clone())];
